@@ -176,6 +176,16 @@ func (c *ctxT) checkCase(word []int) (string, string) {
 			if after.NonceOf(sender) != o.Tx.GetBody().GetNonce() {
 				return desc, fmt.Sprintf("tx %d (%s) %s: sender nonce %d, tx nonce %d", i, o.Gen, o.Status, after.NonceOf(sender), o.Tx.GetBody().GetNonce())
 			}
+			// all of its effects: whatever it debits is credited somewhere. The two blocks differ by this tx
+			// alone, so the sum of all balances differs by nothing (fees go to the coinbase) or by the
+			// recorded fee (fees are burnt)
+			wantDelta := new(big.Int)
+			if !c.net.Coinbase {
+				wantDelta.Neg(o.Fee)
+			}
+			if d := new(big.Int).Sub(after.Total(), before.Total()); d.Cmp(wantDelta) != 0 {
+				return desc, fmt.Sprintf("tx %d (%s) %s: the sum of all balances changes by %s with it (expected %s): a debit without its credit or the reverse", i, o.Gen, o.Status, d, wantDelta)
+			}
 			amt := o.Tx.GetBody().GetAmountBigInt()
 			rcp := o.Tx.GetBody().GetRecipient()
 			simple := o.Tx.GetBody().GetType() == types.TxType_TRANSFER && len(rcp) == 33 && (p.Contract == nil || !bytes.Equal(rcp, p.Contract)) && c.net.Vault == ""
@@ -350,7 +360,7 @@ func main() {
 	xplor.Main(xplor.Check{
 		ID:    "C03",
 		Level: "exploration",
-		Rule:  "every block of <= 2 transactions over the 41-letter alphabet x pre-state {genesis, warm} x 5 (thorough 40) network configurations. Per tx, by prefix differential on the real producer path (block with txs[:i] vs txs[:i+1], full state dumps): rejected => state, state root and receipts root identical to the block without it; ERROR receipt => only payer balance (- recorded fee), sender nonce (= tx nonce) and the coinbase change, no storage/code change, no events from v3; applied => nonce consumed, and for plain transfers exact amounts and no third account. Per block: invalid variants (wrong state/receipts/tx root, rejected txs re-inserted, body lacking a committed tx, duplicated tx, foreign signature) delivered to the node must be refused and leave a digest of both stores, best block, state root, DPoS status and orphan pool unchanged. distinct_nontrivial = distinct (net, pre-state, word, outcome vector)",
+		Rule:  "every block of <= 2 transactions over the 41-letter alphabet x pre-state {genesis, warm} x 5 (thorough 40) network configurations. Per tx, by prefix differential on the real producer path (block with txs[:i] vs txs[:i+1], full state dumps): rejected => state, state root and receipts root identical to the block without it; ERROR receipt => only payer balance (- recorded fee), sender nonce (= tx nonce) and the coinbase change, no storage/code change, no events from v3; applied => nonce consumed, the sum of all balances unchanged by it (minus the fee where fees are burnt), and for plain transfers exact amounts and no third account. Per block: invalid variants (wrong state/receipts/tx root, rejected txs re-inserted, body lacking a committed tx, duplicated tx, foreign signature) delivered to the node must be refused and leave a digest of both stores, best block, state root, DPoS status and orphan pool unchanged. distinct_nontrivial = distinct (net, pre-state, word, outcome vector)",
 		Assumptions: []string{
 			"contract execution is the stub VM (storage writes, runtime failure, system failure, gas) driven through the real contract.Execute / executeTx / BlockState snapshot+rollback",
 			"the bad-block cache is not part of 'state, indexes and best block'",
